@@ -81,22 +81,25 @@ if os.path.exists(_EXTRA_KNOWN) and not getattr(core, "_c04_known_patched", Fals
 MASK_VALUES = {0: 0, 1: 1, 2: 2}  # class -> raw mask value (valid_pixels = 0, no_data_mask = 1, anything else masked)
 
 
-def make_images(rng, rows, cols, lcls, rcls, disp, grids=None, masked_value=2):
-    """integer radiometry images + masks built from class matrices (None = no `msk` variable)"""
+def make_images(rng, rows, cols, lcls, rcls, disp, grids=None, masked_value=2, conv_r=None):
+    """integer radiometry images + masks built from class matrices (None = no `msk` variable); conv_r = the right
+    dataset's own (valid_pixels, no_data_mask) codes (each dataset carries its convention in its attributes)"""
     left = np.array([[rng.randrange(0, 40) for _ in range(cols)] for _ in range(rows)])
     right = np.array([[rng.randrange(0, 40) for _ in range(cols)] for _ in range(rows)])
 
-    def raw(cls):
+    def raw(cls, conv=(0, 1)):
         if cls is None:
             return None
         m = np.array(cls, dtype=np.int16)
-        out = np.zeros_like(m)
-        out[m == 1] = 1
+        out = np.full_like(m, conv[0])
+        out[m == 1] = conv[1]
         out[m == 2] = masked_value
         return out
 
     L = pu.image_dataset(left, disp=disp, mask=raw(lcls), grids=grids)
-    R = pu.image_dataset(right, disp=None, mask=raw(rcls))
+    R = pu.image_dataset(right, disp=None, mask=raw(rcls, conv_r or (0, 1)))
+    if conv_r:
+        R.attrs["valid_pixels"], R.attrs["no_data_mask"] = conv_r
     return L, R
 
 
@@ -188,8 +191,12 @@ def gen_random_layout(rng):
         # mostly masked right image, mostly valid left image: for many pixels every in-image candidate is masked (bit 7)
         rcls = random_cls(rng, rows, cols, 0.05, 0.8)
         lcls = random_cls(rng, rows, cols, 0.05, 0.05) if rng.random() < 0.5 else None
+    masked_value = rng.choice([2, 2, 5, 255, -3])
+    conv_r = None
+    if rcls is not None and rng.random() < 0.3:
+        conv_r = rng.choice([c for c in [(5, 7), (4, 0), (1, 0), (7, 6)] if masked_value not in c])
     return dict(rows=rows, cols=cols, w=w, off=off, dmin=dmin, dmax=dmax, lcls=lcls, rcls=rcls, subpix=subpix,
-                method=method, grids=grids, masked_value=rng.choice([2, 2, 5, 255, -3]), full=True, origin=origin)
+                method=method, grids=grids, masked_value=masked_value, full=True, origin=origin, conv_r=conv_r)
 
 
 def gen_small_layout(rng):
@@ -287,7 +294,10 @@ def check_layouts(ctx, model, layouts, label):
     for lay in layouts:
         rows, cols, off = lay["rows"], lay["cols"], lay["off"]
         disp = (lay["dmin"], lay["dmax"])
-        L, R = make_images(rng, rows, cols, lay["lcls"], lay["rcls"], disp, lay["grids"], lay["masked_value"])
+        L, R = make_images(rng, rows, cols, lay["lcls"], lay["rcls"], disp, lay["grids"], lay["masked_value"],
+                           conv_r=lay.get("conv_r"))
+        if lay.get("conv_r"):
+            ctx.count("layouts_with_another_right_mask_convention")
         if lay.get("origin"):
             # the pair read through a ROI: row / col coordinates are those of the full image (they do not start at 0);
             # flags are a function of positions inside the datasets, so nothing may change
